@@ -80,6 +80,9 @@ func MakeConfig(seed uint64, profile, tier string) SwarmConfig {
 	if on(0.5) {
 		f.BotStall = 0.05
 	}
+	if on(0.4) {
+		f.Quiet = pick(r, []float64{0.01, 0.04})
+	}
 	if on(0.6) {
 		c.Replica = true
 		f.Restart = pick(r, []float64{0.03, 0.15})
@@ -150,6 +153,7 @@ func MakeConfig(seed uint64, profile, tier string) SwarmConfig {
 		emph("perp", "levlp", "trader")
 		c.CoolDown = 10
 		c.Rate["canary"] = 1
+		f.Quiet = pick(r, []float64{0.02, 0.06})
 		if r.IntN(5) < 3 {
 			c.Rate["govedge"] = pick(r, []float64{0.3, 0.8})
 		}
